@@ -26,6 +26,7 @@ EXPLANATION = (
     "in normal form with the zero-mean override 0, 0, -1. R-C05-5: the single- and multi-point branches of collective map "
     "every shared column to the same source (debug_output is single-point only). R-C05-6: the running strain maximum is "
     "updated only on the load-increase branch, the minimum on the other, both against the current point's strain.")
+EXPLANATION += (' R-C05-7: visited strains are one list split at a counter; every append is followed by `if run_index == 1: counter += 1`, the counter changes nowhere else, the accessors return [:counter] and [counter:]. R-C05-8: a decision taken on the first assessment point and applied to all points compares loads or sample positions, or the same field of the two ends of the closing branch (monotone branch); any other first-point comparison of stresses/strains is a violation. R-C05-9: chunk-relative positions (global position minus head index before the chunk); the repair of a turning point lying in the carried tail is guarded by a complete sign test (< 0), and the stored sample is the last load step of the chunk.')
 ASSUMPTIONS = ["pd.concat([a, b]) appends b after a"]
 
 LISTS = ["_loads_min", "_loads_max", "_S_min", "_S_max", "_epsilon_min", "_epsilon_max", "_epsilon_min_LF",
